@@ -6,6 +6,7 @@ import IbicusModel.Props.C12
 #print axioms Props.C12.mutants_rejected
 #print axioms Props.C12.sites_justified
 #print axioms Props.C12.stores_listed
+#print axioms Props.C12.callArgs_classified
 #print axioms Props.C12.trusted_alias_classification
 -- property theorems: (B) instance model
 #print axioms Props.C12.selfAssigns_in_post_init
@@ -23,3 +24,4 @@ import IbicusModel.Props.C12
 #print axioms Lemmas.GenWriteSites.sites
 #print axioms Lemmas.GenWriteSites.selfAssigns
 #print axioms Lemmas.GenWriteSites.globalState
+#print axioms Lemmas.GenWriteSites.callArgs
